@@ -2246,6 +2246,52 @@ def c01(res, tier, seed):
     if stage2:
         run_queries([q2 for _, q2 in stage2])
         split_unknown([q2 for _, q2 in stage2], "split_round2")
+        repl0 = {id(q1): q2 for q1, q2 in stage2}
+        done = [repl0.get(id(qq), qq) for qq in done]
+        stage2 = []
+    # counterexample search for what is still undecided: the same exact query with (angle, ratio) fixed on a
+    # grid that hugs the guards' own thresholds (the remaining variables -- cell length, relative offset,
+    # orientation -- stay symbolic).  A sat cell is replayed; unsat cells prove nothing beyond the grid and the
+    # obligation stays undischarged.
+    import math as _m2
+    offs = [0.0, 0.1, 0.19, 0.21, 0.35, 0.45, 0.49, 0.51, 0.8, 1.04]
+    ratios = [1.0, 0.8, 0.6, 0.53, 0.51, 0.49, 0.4, 0.34, 0.32, 0.2, 0.1]
+    undec = [qq for qq in done if qq.status not in ("sat", "unsat") and getattr(qq, "rawq", None) is not None]
+    gridq = []
+    thetas = [k_ * _m2.pi / 8 + 0.05 for k_ in range(4)]   # squares/triangles: orientation modulo the shape's symmetry
+    for qq in undec:
+        raw, fin = qq.rawq
+        qq.grid = []
+        is_poly = "square" in qq.name or "triangle" in qq.name
+        for off in offs:
+            ang = _m2.pi / 2 - off
+            cv, sv = _m2.cos(ang), _m2.sin(ang)
+            for rv_ in ratios:
+                for thv in (thetas if is_poly else [None]):
+                    pin = [T.fcmp("fle", cv - 1e-12, c_), T.fcmp("fle", c_, cv + 1e-12), T.fcmp("fle", sv - 1e-12, s_), T.fcmp("fle", s_, sv + 1e-12), T.fcmp("feq", q, rv_)]
+                    if thv is not None:
+                        ct, st_ = _m2.cos(thv), _m2.sin(thv)
+                        pin += [T.fcmp("fle", ct - 1e-12, cth), T.fcmp("fle", cth, ct + 1e-12), T.fcmp("fle", st_ - 1e-12, sth), T.fcmp("fle", sth, st_ + 1e-12)]
+                    gq = Query(qq.name + " [grid angle=pi/2-%g ratio=%g%s]" % (off, rv_, "" if thv is None else " theta=%.3f" % thv), fin(raw + pin, i_=qq.meta.get("i"), j_=qq.meta.get("j")), timeout=10, meta=qq.meta)
+                    gq.get_terms = [c_, s_, cth, sth]
+                    gq.rawq = (raw + pin, fin)
+                    qq.grid.append(gq)
+                    gridq.append(gq)
+    if gridq:
+        run_queries(gridq)
+        for qq in undec:
+            hits = [gq for gq in qq.grid if gq.status == "sat"]
+            qq.secs += sum(gq.secs for gq in qq.grid)
+            if hits:
+                qq.status, qq.model = "sat", hits[0].model
+                qq.term_names = getattr(hits[0], "term_names", {})
+                qq.rawq = hits[0].rawq
+            else:
+                qq.meta = dict(qq.meta, grid_cells_unsat=sum(1 for gq in qq.grid if gq.status == "unsat"), grid_cells=len(qq.grid))
+        res.extra["grid_search_goals"] = len(undec)
+        res.extra["grid_queries"] = len(gridq)
+    if stage2:
+        pass
         repl = {id(q1): q2 for q1, q2 in stage2}
         done = [repl.get(id(qq), qq) for qq in done]
         res.extra["stage2_queries"] = len(stage2)
